@@ -86,7 +86,7 @@ pub fn owns_panic(prop: u8, double: bool, op: &'static str, after_special: bool)
         11 => matches!(op, "push_increase" | "push_decrease"),
         13 => matches!(op, "iter" | "ref_into_iter" | "into_iter" | "drain" | "sorted_iter" | "adaptor"),
         14 => matches!(op, "eq" | "clone"),
-        15 => op == "serde",
+        15 => matches!(op, "serde" | "deser_seq"),
         16 => matches!(op, "clear" | "drain") || after_special,
         17 => matches!(op, "reserve" | "shrink_to_fit") || after_special,
         _ => false,
@@ -180,7 +180,7 @@ pub fn rule_text(prop: u8) -> &'static str {
         11 => "state + push_increase/push_decrease with offered priority lower/equal/higher; non-trivial = item present, size>=3, and the equal class or a move occurred; distinct = hash of the case",
         12 => "history over items with payload; non-trivial = a priority update of a present item issued with a different payload, a payload write, and a slot-renaming removal; distinct = hash of the case",
         13 => "iterator call programs and adaptor compositions; non-trivial = n>=2 and a probe after an advance, or an adaptor whose length differs from n; distinct = hash of the case",
-        15 => "state + serde round trip through 3 carriers as same/other kind; non-trivial = a round trip on >=3 elements with ties; distinct = hash of the case",
+        15 => "state + serde round trip through 3 carriers as same/other kind; non-trivial = a round trip on >=3 elements with ties, or a deserialized pair sequence that repeats an item; distinct = hash of the case",
         16 => "state + clear/drain (consumption program, drop or forget) + continuation; non-trivial = size>=2 before, partial consumption or leak or clear, then >=3 further ops including an extraction; distinct = hash of the case",
         17 => "history with capacity ops interleaved; non-trivial = >=2 capacity ops on a non-empty queue and a later checked extraction; distinct = hash of the case",
         _ => "see DESIGN.md",
@@ -211,7 +211,7 @@ pub fn nontrivial(prop: u8, s: &Stats) -> bool {
         11 => n("pushdir_present") > 0 && s.max_size >= 3,
         12 => n("update_with_other_tag") > 0 && n("tag_write") > 0 && n("remove_renames_slot") > 0,
         13 => n("iter_probe_after_advance") + n("adaptor_answer_differs_from_n") > 0,
-        15 => n("serde_roundtrip_ties") > 0,
+        15 => n("serde_roundtrip_ties") + n("deser_seq_with_repeats") > 0,
         16 => (n("drain_partial_or_leaked") + n("clear_nonempty")) > 0 && n("after_special_ops") >= 3 && n("after_special_extract") > 0,
         17 => n("cap_op_nonempty") >= 2 && n("extract_checked") > 0,
         _ => s.steps > 0,
